@@ -57,6 +57,23 @@ pub fn near_misses(name: &str) -> Vec<String> {
         v.push(name.chars().take(n - 1).collect());
         v.push(name.chars().skip(1).collect());
     }
+    // every proper prefix, every one-character extension over the operator character set, and the
+    // name padded to the lengths at which string comparisons change strategy
+    let chars: Vec<char> = name.chars().collect();
+    for i in 1..chars.len() {
+        v.push(chars[..i].iter().collect());
+    }
+    for c in op_charset() {
+        v.push(format!("{}{}", name, c));
+        v.push(format!("{}{}", c, name));
+    }
+    for pad in [8usize, 15, 16, 17, 31, 32, 33, 64] {
+        if pad > chars.len() {
+            v.push(format!("{}{}", name, " ".repeat(pad - chars.len())));
+            v.push(format!("{}{}", name, "_".repeat(pad - chars.len())));
+            v.push(format!("{}{}", name, "\u{0}".repeat(pad - chars.len())));
+        }
+    }
     v.retain(|k| !refmodel::is_op(k));
     v.sort();
     v.dedup();
